@@ -431,6 +431,10 @@ def check(ctx):
             ctx.ob("I12", f"{_en}::{_names[0]}::distinct", len(_names) == 1,
                    f"{_en}: the manager names {_names} as different members but they share the value {_v!r}: they are ONE member (the first defined), the row written for the other name is never taken", _ec.loc if hasattr(_ec, "loc") else None)
 
+    ctx.rule("I13", "a reset ends the tasks of the connection it discards: a task cancelled while it waits inside a request (the refresh loop inside the block transfer, a ping under the request lock) must end there - an `except:` that turns the cancellation into \"request failed\", or a lock whose __aexit__ answers it with a true value, lets the discarded connection's loop run on and report RETRY_COUNT_EXCEEDED / ping failures into the manager AFTER the reset: ERROR_NEEDS_ATTENTION with no spa, facade or descriptors, from which no row leads on (C10.R4's interception sites borrowed)")
+    from .c10 import cancellation_passes_through as _cpt
+    _cpt(ctx.borrowed("I13", "C10"), repo, "R4")
+
     # ---- all state assignments in the manager class ---------------------------------
     man = repo.cls(MAN)
     # the manager's methods wherever the hierarchy keeps them (mixins of the package included; AsyncTasks is the task
